@@ -550,7 +550,9 @@ func (obj *Package) forwardCalls(name string, creator func(args List) Object) bo
 func (obj *Package) Export(name string) {
 	name = strings.ToLower(name)
 	obj.mu.Lock()
-	obj.Exports = append(obj.Exports, name)
+	if !obj.inExports(name) {
+		obj.Exports = append(obj.Exports, name)
+	}
 	if obj.funcs != nil {
 		if fi := obj.funcs[name]; fi != nil {
 			fi.Export = true
@@ -587,11 +589,25 @@ func (obj *Package) Export(name string) {
 	obj.mu.Unlock()
 }
 
+func (obj *Package) inExports(name string) bool {
+	for _, x := range obj.Exports {
+		if x == name {
+			return true
+		}
+	}
+	return false
+}
+
 // Unexport a function.
 func (obj *Package) Unexport(name string) {
 	name = strings.ToLower(name)
 	obj.mu.Lock()
-	// TBD remove from Exports list
+	for i, x := range obj.Exports {
+		if x == name {
+			obj.Exports = append(obj.Exports[:i:i], obj.Exports[i+1:]...)
+			break
+		}
+	}
 	// An entry inherited from a used package is not this package's to
 	// unexport.
 	if obj.funcs != nil {
